@@ -57,7 +57,14 @@ def signature(ev, invariant):
     if invariant:
         return "invariant:" + invariant
     if ev.get("e") == "Error":
+        if str(ev.get("what", "")).startswith("BlockReader.Read") and ev.get("ctx"):
+            return "reader-fails:%s" % ev["ctx"]
+        if str(ev.get("what", "")).startswith("subscription"):
+            return "subscription-fails:%s" % str(ev.get("what")).split()[1]
         return "error:%s" % ev.get("what")
+    if ev.get("e") == "SubDrain":
+        # sameids: the messages name the blocks the driver's own tree arithmetic expects, so only flags can differ
+        return "subscriber-diverges:%s%s" % (ev.get("kind"), "-stale-obsolete-flag" if ev.get("sameids") else "")
     if ev.get("e") == "Process":
         return "verdict:%s:%s" % ("accepted" if ev.get("ok") else "refused", ev.get("class"))
     if ev.get("e") == "Adopt":
@@ -197,6 +204,17 @@ def mut_exclude(evs):
 
 def mut_obsolete(evs):
     i = pick(evs, lambda e: e["e"] == "Read" and any(o["obs"] for o in e["out"]))
+    if i is None:
+        return None, 0
+    for o in evs[i]["out"]:
+        if o["obs"]:
+            o["obs"] = False
+            break
+    return evs, i
+
+
+def mut_sub_obsolete(evs):
+    i = pick(evs, lambda e: e["e"] == "SubDrain" and any(o["obs"] for o in e["out"]))
     if i is None:
         return None, 0
     for o in evs[i]["out"]:
